@@ -5,10 +5,11 @@ Spec: spec/Text.tla.  Texts are sequences of symbol codes built by AppendChar
 (typed text) or are the Excel rendering of a number k/10^j; TEXT() formats are
 built by AppendFmt along the grammar  #*0* [one ',' between placeholders]
 [. 0* #*] [%].  TLC checks the laws of the statement on the definitions
-(SplitLaw, RightLaw, MidLaw, ReplaceLaw, FindLaw, SubstLaw, ConcatLaw, TrimLaw,
-IdemLaw, ExactLaw, RenderLaw, TextRoundLaw, TextShapeLaw) and exports one
-vector per state with the definitions' results for every position / count in
--1..10.
+(SplitLaw, RightLaw, MidLaw, TruncLaw, ReplaceLaw, FindLaw, SubstLaw,
+SubstEmptyLaw, ConcatLaw, TrimLaw, IdemLaw, ExactLaw, RenderLaw, TextRoundLaw,
+TextShapeLaw) and exports one vector per state with the definitions' results
+for every position / count in -1..10; a position or count n >= 0 is also
+passed with a fraction (n.5, n.9: Excel cuts it off, Text!Whole).
 
 Binding: every exported result is compared with the real function of
 pycel.lib.text, called (a) as the wrapped library function (the same
@@ -16,8 +17,7 @@ apply_meta() wrapping the formula loader applies) and (b) through compiled
 formulas in a workbook (=LEFT(A1,B1)&MID(A1,B1+1,LEN(A1)), =REPLACE(..) next to
 =LEFT(..)&D1&MID(..), =CONCATENATE(A1,D1) next to =A1&D1, ...).  A vector whose
 spec value is <<"U">> (statement silent: MID/FIND start < 1, SUBSTITUTE with an
-empty or self-overlapping old text or an instance < 1, TEXT of a negative
-number that rounds to zero, separators inside zero padding) is executed but
+instance < 1, TEXT of a negative number that rounds to zero) is executed but
 not judged.
 """
 import concurrent.futures
@@ -46,8 +46,8 @@ class _Unjudged:
 
 UNJUDGED = _Unjudged()
 
-LAWS = ['SplitLaw', 'RightLaw', 'MidLaw', 'ReplaceLaw', 'FindLaw', 'SubstLaw', 'SubstOverlapLaw',
-        'ConcatLaw', 'TrimLaw', 'IdemLaw', 'ExactLaw', 'RenderLaw',
+LAWS = ['SplitLaw', 'RightLaw', 'MidLaw', 'TruncLaw', 'ReplaceLaw', 'FindLaw', 'SubstLaw',
+        'SubstOverlapLaw', 'SubstEmptyLaw', 'ConcatLaw', 'TrimLaw', 'IdemLaw', 'ExactLaw', 'RenderLaw',
         'TextRoundLaw', 'TextShapeLaw']
 VALUE_ERROR = '#VALUE!'
 MAX_KEPT = 60          # violations kept per TLC job (all are counted)
@@ -186,7 +186,7 @@ class Driver:
 
     FUNCS = ('left right mid replace find substitute trim upper lower exact '
              'concatenate concat len_ text').split()
-    COUNTERS = ('judged unjudged unjudged_raised len_whole_float formula_cells '
+    COUNTERS = ('judged unjudged unjudged_raised len_whole_float formula_cells fractional '
                 'slice_states text_states prefix_states text_unjudged '
                 'nviolations').split()
 
@@ -281,6 +281,11 @@ class Driver:
                 self.seen_last_char.add(st[-1])
         lo, hi = vec['pos']
         poss = list(range(lo, hi + 1))
+        tenths = sorted(vec['tenths'])       # n >= 0 is also passed as n + f/10
+
+        def frac(n):
+            """the position / count n with a fraction that Excel cuts off"""
+            return n + rnd.choice(tenths) / 10 if n >= 0 and tenths else n
         left = dict(zip(poss, map(tval, seq(vec['left']))))
         right = dict(zip(poss, map(tval, seq(vec['right']))))
         mid = {(p, c): tval(r) for p, row in zip(poss, seq(vec['mid']))
@@ -323,6 +328,28 @@ class Driver:
                 lib('left', (x, n), w)
             for n, w in right.items():
                 lib('right', (x, n), w)
+            # positions and counts with a fraction: every n >= 0 for LEFT and
+            # RIGHT, a random choice of argument tuples for the others
+            for n in poss:
+                for f in tenths if n >= 0 else ():
+                    lib('left', (x, n + f / 10), left[n])
+                    lib('right', (x, n + f / 10), right[n])
+                    self.fractional += 2
+            for (p, c), w in rnd.sample(sorted(mid.items(), key=lambda kv: kv[0]), 12):
+                p2, c2 = rnd.choice(((frac(p), c), (p, frac(c)), (frac(p), frac(c))))
+                if (p2, c2) != (p, c):
+                    lib('mid', (x, p2, c2), w)
+                    self.fractional += 1
+            for (t, n, k), w in rnd.sample(sorted(repl.items(), key=lambda kv: kv[0]), 12):
+                n2, k2 = rnd.choice(((frac(n), k), (n, frac(k)), (frac(n), frac(k))))
+                if (n2, k2) != (n, k):
+                    lib('replace', (x, n2, k2, t), w)
+                    self.fractional += 1
+            for (f, s0), w in rnd.sample(sorted(find.items(), key=lambda kv: kv[0]),
+                                         min(8, len(find))):
+                if s0 >= 1 and tenths:
+                    lib('find', (f, x, frac(s0)), w)
+                    self.fractional += 1
             lib('left', (x,), left[1])        # num_chars defaults to 1
             lib('right', (x,), right[1])
             for (p, c), w in mid.items():
@@ -371,8 +398,11 @@ class Driver:
                 else rnd.choice(fkeys)            # prefer a text that occurs
             w_all, nth = [(a, b) for o, t2, a, b in subst if o == f and t2 == t][0]
             i = rnd.choice(sorted(nth))
+            # one row in four has its position and count with a fraction
+            fractional = bool(tenths) and rnd.random() < 0.25
             self.rows.append(dict(
                 st=st, x=x, n=n, k=k, t=t, f=f, i=i,
+                nq=frac(n) if fractional else n, kq=frac(k) if fractional else k,
                 want=dict(
                     split=st, left=left[n], right=right[k], mid=mid[(n, k)],
                     replace=repl[(t, n, k)],
@@ -418,12 +448,14 @@ class Driver:
         cells = {}
         plan = []
         for r, row in enumerate(rows, start=1):
-            for col, key in zip('ABCDEF', ('x', 'n', 'k', 't', 'f', 'i')):
+            for col, key in zip('ABCDEF', ('x', 'nq', 'kq', 't', 'f', 'i')):
                 cells[f'{col}{r}'] = row[key]
             w = row['want']
             # REPLACE = LEFT & t & MID (ReplaceLaw; #VALUE! on both sides for
-            # n < 1) is stated for counts k >= 0
-            w['ident'] = w['replace'] if row['k'] >= 0 else None
+            # n < 1) is stated for counts k >= 0 (and for whole n, k: the
+            # fractions of n and k add up in MID(.., n + k, ..))
+            w['ident'] = w['replace'] if row['k'] >= 0 and \
+                (row['nq'], row['kq']) == (row['n'], row['k']) else None
             # the split identity (SplitLaw) is stated for n >= 0
             if row['n'] < 0:
                 w['split'] = None
@@ -448,7 +480,7 @@ class Driver:
             self.formula_cells += 1
             self.judge(fn, got, want, lambda: dict(
                 via='formula', formula=f, fn=fn,
-                cells=dict(A=row['x'], B=row['n'], C=row['k'], D=row['t'],
+                cells=dict(A=row['x'], B=row['nq'], C=row['kq'], D=row['t'],
                            E=row['f'], F=row['i'])))
 
     # -- TEXT vectors -------------------------------------------------------
@@ -662,7 +694,7 @@ def run(tier, seed):
         bounds=dict(alphabet=[CH[c] for c in ALPHABET],
                     typed_text_exhaustive_up_to=maxlen,
                     longest_text=longest,
-                    positions='-1..10',
+                    positions='-1..10, and n + 0.5, n + 0.9 for n in 0..10',
                     new_texts=['', 'b', CH[8] + 'a', '3 (also passed as 3 and 3.0)'],
                     search_texts='all texts of length <= 2 over the alphabet '
                                  '+ the pieces of the text itself',
@@ -678,6 +710,7 @@ def run(tier, seed):
         unjudged_calls=total['unjudged'],
         unjudged_text_vectors=total['text_unjudged'],
         len_of_whole_float_not_judged=total['len_whole_float'],
+        calls_with_fractional_position_or_count=total['fractional'],
         discrepancies_total=total['nviolations'],
         rule='one case = one call (function, arguments) of the wrapped '
              'library function or one formula cell; all cases of a run are '
@@ -687,9 +720,9 @@ def run(tier, seed):
         unjudged_classes=[
             'MID / FIND with start < 1 (statement only fixes negative counts)',
             'FIND of the empty text from start = LEN+1 (start or #VALUE! allowed)',
-            'SUBSTITUTE with empty or self-overlapping old text, instance < 1',
+            'SUBSTITUTE with an instance < 1',
+            'a negative position / count with a fraction (-0.5)',
             'TEXT of a negative number that rounds to zero (-0.00 vs 0.00)',
-            'TEXT with a thousands separator and more than 3 forced integer digits',
             'LEN of a whole float (pinned by the repository tests)'])
     v.assumptions = [
         'TLC evaluates the definitions of Text.tla correctly',
